@@ -241,6 +241,42 @@ def spec(x, y):
   return 'conditional'      # closed records: on the field sets
 
 
+def end_of_chain(chk, rid):
+  """Methods of TypeReference (other than the constructor) that redirect a
+  reference do so at the END of the chain: the variable whose `.target` is
+  assigned was advanced by `while x.WeMustGoDeeper(): x = x.target`.  Writing
+  `self.target` would detach the first link only: references already unified
+  with it keep seeing the old value."""
+  repo = chk.repo
+  m = repo.by_name('reference_algebra')
+  ci = m.cls('TypeReference')
+  n = 0
+  for name, fi in sorted(ci.methods.items()):
+    if name == '__init__':
+      continue
+    for x in walk_local(fi.node):
+      if isinstance(x, ast.Assign):
+        for t in x.targets:
+          if isinstance(t, ast.Attribute) and t.attr == 'target':
+            n += 1
+            base = dotted(t.value)
+            advanced = False
+            for w in walk_local(fi.node):
+              if isinstance(w, ast.While) and 'WeMustGoDeeper' in norm(w.test) and \
+                  norm(w.test).startswith(str(base) + '.'):
+                for st in w.body:
+                  if isinstance(st, ast.Assign) and dotted(st.targets[0]) == base and \
+                      norm(st.value) == '%s.target' % base:
+                    advanced = True
+            chk.ob(rid, advanced and base != 'self', None,
+                   'TypeReference.%s redirects the end of the reference chain' % name,
+                   '%s assigns `%s.target` without following the chain to its end: '
+                   'only the first link changes, every reference already unified '
+                   'with it keeps the old type' % (name, base), fi=fi, node=x)
+  if n == 0:
+    raise AnalysisError('TypeReference: no method assigning .target found (CloseRecord?)')
+
+
 def run(chk):
   repo = chk.repo
   chk.assume('A3-like: the specification matrix in rules/c16.py (derived from the '
@@ -366,6 +402,7 @@ def run(chk):
            'RenderType, IsBadType ...) must not change what a reference '
            'denotes - a lookup between two unifications would change the '
            'result' % q, fi=m.funcs[q], node=x)
+  end_of_chain(chk, 'C16-R3')
   tg = repo.func('reference_algebra.TypeReference.Target')
   ok = any(isinstance(x, ast.While) and 'WeMustGoDeeper' in norm(x.test)
            for x in walk_local(tg.node))
